@@ -9,17 +9,25 @@ use super::*;
 leaf_total!(q_c07_leaf_none, 6, ValueKind::None, 1, [1, 2]);
 leaf_total!(q_c07_leaf_bool, 6, ValueKind::Bool, 2, [1, 2, 3]);
 leaf_total!(q_c07_leaf_u8, 6, ValueKind::U8, 2, [1, 2, 3]);
+#[cfg(not(verif_quick))]
 leaf_total!(q_c07_leaf_i8, 6, ValueKind::I8, 2, [1, 2, 3]);
 leaf_total!(q_c07_leaf_u16, 8, ValueKind::U16, 4, [1, 2, 3, 4]);
+#[cfg(not(verif_quick))]
 leaf_total!(q_c07_leaf_i16, 8, ValueKind::I16, 4, [1, 2, 3, 4]);
 leaf_total!(q_c07_leaf_u32, 10, ValueKind::U32, 6, [1, 2, 5, 6]);
+#[cfg(not(verif_quick))]
 leaf_total!(q_c07_leaf_i32, 10, ValueKind::I32, 6, [1, 2, 5, 6]);
+#[cfg(not(verif_quick))]
 leaf_total!(q_c07_leaf_u64, 14, ValueKind::U64, 10, [1, 2, 9, 10]);
+#[cfg(not(verif_quick))]
 leaf_total!(q_c07_leaf_i64, 14, ValueKind::I64, 10, [1, 2, 9, 10]);
+#[cfg(not(verif_quick))]
 leaf_total!(q_c07_leaf_f32, 10, ValueKind::F32, 5, [1, 2, 4, 5, 6]);
 leaf_total!(q_c07_leaf_f64, 14, ValueKind::F64, 9, [1, 2, 8, 9, 10]);
 leaf_total!(q_c07_leaf_uuid, 22, ValueKind::Uuid, 17, [1, 16, 17]);
+#[cfg(not(verif_quick))]
 leaf_total!(q_c07_leaf_sender, 22, ValueKind::Sender, 17, [1, 16, 17]);
+#[cfg(not(verif_quick))]
 leaf_total!(q_c07_leaf_receiver, 22, ValueKind::Receiver, 17, [1, 16, 17]);
 
 #[kani::proof]
